@@ -34,9 +34,17 @@ fn gen_preempt(g: &mut Rng, _tier: Tier) -> J {
             "yielding" => g.chance(1, 3),
         });
     }
+    let mut sim = gen_sim(g, SimOpts { max_points: 6_000_000, max_sim_ms: 30_000, late_signals: true, timing: true, ..SimOpts::default() });
+    // one local queue per scheduling thread: the global queue creates num_cpus of them and hands them
+    // out round robin, so with fewer CPUs than schedulers two schedulers would share one (recorded as
+    // a known finding under C20; here every thread must really own its coroutines)
+    if let Some(k) = sim.get_mut("knobs") {
+        let have = k.gu("num_cpus");
+        k.set("num_cpus", have.max(nthreads).into());
+    }
     obj! {
         "threads" => J::Arr(ths),
-        "sim" => gen_sim(g, SimOpts { max_points: 4_000_000, max_sim_ms: 30_000, late_signals: true, ..SimOpts::default() }),
+        "sim" => sim,
     }
 }
 
@@ -187,7 +195,7 @@ fn body_preempt(plan: &J) {
                     let r = recs.lock().unwrap_or_else(|e| e.into_inner());
                     mine.iter().all(|i| r[*i].finished.is_some())
                 };
-                if done || now() - t0 > 5_000_000_000 {
+                if done || now() - t0 > 2_000_000_000 {
                     break;
                 }
             }
@@ -220,7 +228,7 @@ fn body_preempt(plan: &J) {
         for i in mine {
             let c = &r[*i];
             if c.finished.is_none() {
-                fail("coroutine-lost", format!("thread {ti}: {} coroutine {i} did not finish within 5 s (preempted in a syscall state: {})", c.kind, c.preempted_in_syscall));
+                fail("coroutine-lost", format!("thread {ti}: {} coroutine {i} did not finish within 2 s (preempted in a syscall state: {})", c.kind, c.preempted_in_syscall));
             }
             if c.preempted_in_syscall > 0 || (c.kind == "syscall" && c.suspended_while_running > 0) {
                 fail("preempted-in-syscall", format!("thread {ti}: the coroutine computing in a system-call state was suspended by preemption"));
